@@ -2,8 +2,8 @@
 Proof over the loader's bookkeeping (Props/C19.v, Model/Modules.v) + contract tie on traces, error
 kinds and per-(importer, spelling) probes (hx_modules) + a model-independent oracle that resolves the
 generated directory tree the way the language documents it and checks the implementation's own
-outputs; oracle failures are classified by decidable predicates over the tree into the listed root
-causes (known findings) -- anything else is a violation."""
+outputs.  Since the repairs of KF-C19-1/-2/-4/-5/-6/-7 only failures caused by the single VM
+namespace (open findings KF-C19-3, KF-C19-8) are classified; anything else is a violation."""
 import collections, glob, os, shutil
 import vlib
 
@@ -19,8 +19,9 @@ TRUSTED = [
     "VM.globals is modelled as one name->definition map written by sync_globals_to_hashmap after a body ran and by "
     "register_exports; reads are modelled only for top-level code of the importer (what the probes do), not for "
     "function bodies (globals_by_index caches)",
-    "the oracle's reference semantics (resolution relative to the importing file's directory, p.aelys before p/mod.aelys, "
-    "`needs a.b.s` = symbol s of a.b when a/b/s does not exist, grants per import form as in docs/language-spec.md) "
+    "the oracle's reference semantics (resolution relative to the importing file's directory, then the entry file's "
+    "directory, p.aelys before p/mod.aelys, a module = the file it resolves to, `needs a.b.s` = symbol s of a.b when a/b/s "
+    "does not exist, grants per import form as in docs/language-spec.md) "
     "is a Python transcription of the documentation, independent of the Coq model",
     "the theorems are about Model/Modules.v; they carry over to the Rust loader only as far as the tie explores",
 ]
@@ -72,7 +73,7 @@ def pubs(t, f):
     return [n for n, p in t["files"][f]["defs"] if p]
 
 
-def resolve(t, base, path):
+def resolve_in(t, base, path):
     cand = "/".join(base + path)
     if cand in t["files"]:
         return cand
@@ -80,6 +81,15 @@ def resolve(t, base, path):
     if cand in t["files"]:
         return cand
     return None
+
+
+def resolve(t, base, path):
+    """next to the importing file, then next to the entry file"""
+    r = resolve_in(t, base, path)
+    root = t["entry"].split("/")[:-1]
+    if r is None and base != root:
+        r = resolve_in(t, root, path)
+    return r
 
 
 def resolve_import(t, importer, imp):
@@ -101,10 +111,9 @@ def is_std(imp):
 
 
 def analyse(t):
-    """Reference view of the tree: reachable files, edges, cycles, defects, key usage."""
+    """Reference view of the tree: reachable files, edges, cycles, defects."""
     entry = t["entry"]
-    a = {"reach": [], "edges": {}, "defects": set(), "possible": set(), "keys": collections.defaultdict(set),
-         "files_by_key": collections.defaultdict(set)}
+    a = {"reach": [], "edges": {}, "defects": set(), "possible": set()}
     seen, todo = {entry}, [entry]
     while todo:
         f = todo.pop(0)
@@ -117,9 +126,7 @@ def analyse(t):
             if tgt is None:
                 a["defects"].add(2)
                 continue
-            a["edges"][f].append((tgt, sym is not None))
-            a["keys"][tgt].add(key)
-            a["files_by_key"][key].add(tgt)
+            a["edges"][f].append(tgt)
             want = []
             if imp["form"] == "symbols" and sym is None:
                 want = imp["extra"]
@@ -130,24 +137,18 @@ def analyse(t):
             if tgt not in seen:
                 seen.add(tgt)
                 todo.append(tgt)
-    # cycles (with and without the edges written "needs mod.symbol")
-    def cyclic(skip_ps):
-        col = {}
+    col = {}
 
-        def dfs(f):
-            col[f] = 1
-            for g, ps in a["edges"].get(f, []):
-                if skip_ps and ps:
-                    continue
-                if col.get(g) == 1:
-                    return True
-                if g not in col and dfs(g):
-                    return True
-            col[f] = 2
-            return False
-        return dfs(entry)
-    a["cycle"] = cyclic(False)
-    a["cycle_plain"] = cyclic(True)
+    def dfs(f):
+        col[f] = 1
+        for g in a["edges"].get(f, []):
+            if col.get(g) == 1:
+                return True
+            if g not in col and dfs(g):
+                return True
+        col[f] = 2
+        return False
+    a["cycle"] = dfs(entry)
     if a["cycle"]:
         a["defects"].add(1)
     # entry conflicts: a whole-module import whose pub names were already granted bare
@@ -172,10 +173,7 @@ def analyse(t):
             origins |= p
         elif imp["form"] == "symbols":
             origins |= set(imp["extra"])
-    # key usage: one key naming two files / one file under two keys (reachable imports only)
-    a["two_files_one_key"] = sorted(k for k, fs in a["files_by_key"].items() if len(fs) > 1)
-    a["one_file_two_keys"] = sorted(f for f, ks in a["keys"].items() if len(ks) > 1)
-    # names defined at top level by two reachable files
+    # names defined at top level by two reachable files (the one VM namespace: KF-C19-3)
     cnt = collections.Counter()
     for f in a["reach"]:
         for n in {n for n, _ in t["files"][f]["defs"]}:
@@ -187,15 +185,10 @@ def analyse(t):
 def grants(t, f):
     """spelling -> set of (file, name) the documented semantics lets file f use."""
     g = collections.defaultdict(set)
-    quals = set()
-    second_syms = set()
-    ps_private = set()
     for n, _ in t["files"][f]["defs"]:
         g[("bare", n)].add((f, n))
     for imp in t["files"][f]["imports"]:
         if is_std(imp):
-            if imp["form"] == "alias":
-                quals.add(imp["extra"])
             continue
         tgt, key, sym = resolve_import(t, f, imp)
         if tgt is None:
@@ -204,55 +197,39 @@ def grants(t, f):
         if sym is not None:
             if sym in p:
                 g[("bare", sym)].add((tgt, sym))
-            else:
-                ps_private.add(sym)
             continue
         last = imp["path"][-1]
         if imp["form"] == "module":
-            quals.add(last)
             for n in p:
                 g[("qual", last, n)].add((tgt, n))
                 g[("bare", n)].add((tgt, n))
         elif imp["form"] == "alias":
-            quals.add(imp["extra"])
             for n in p:
                 g[("qual", imp["extra"], n)].add((tgt, n))
         elif imp["form"] == "symbols":
-            for k, s in enumerate(imp["extra"]):
+            for s in imp["extra"]:
                 if s in p:
                     g[("bare", s)].add((tgt, s))
-                    if k > 0:
-                        second_syms.add(s)
         elif imp["form"] == "wildcard":
-            quals.add(last)     # the loader also registers the last segment as a module alias
             for n in p:
                 g[("bare", n)].add((tgt, n))
-    return g, quals, second_syms, ps_private
+    return g
 
 
 def oracle(t, code, trace, probes):
-    """Model-independent check of one tree's observations.  Returns a list of
-    (signature, what) for every failure, signature chosen by root cause."""
+    """Model-independent check of one tree's observations.  Returns a list of (signature, what)
+    for every failure.  Only the two open root causes (one VM namespace) are attributed; every
+    other failure keeps a generic signature and is a violation."""
     a = analyse(t)
     out = []
-    key_sig = None
-    if a["two_files_one_key"]:
-        key_sig = "key:two-files-one-key"
-    elif a["one_file_two_keys"]:
-        key_sig = "key:one-file-two-keys"
 
     def fail(sig, what):
         out.append((sig, what))
 
     # O1 at most once, always
-    dup = [f for f, c in collections.Counter(trace).items() if c > 1]
-    for f in dup:
-        if f in a["one_file_two_keys"]:
-            fail("key:one-file-two-keys", f"{f} initialised {trace.count(f)} times: it is imported as {sorted(a['keys'][f])}")
-        elif key_sig:
-            fail(key_sig, f"{f} initialised {trace.count(f)} times in a tree with colliding module keys")
-        else:
-            fail("double-init", f"{f} initialised {trace.count(f)} times")
+    for f, c in collections.Counter(trace).items():
+        if c > 1:
+            fail("double-init", f"{f} initialised {c} times")
     for f in trace:
         if f not in a["reach"]:
             fail("init-of-unreachable", f"{f} ran but is not reachable from the entry")
@@ -262,51 +239,35 @@ def oracle(t, code, trace, probes):
         allowed.add(0)
     if code not in allowed:
         if code == 0 and a["cycle"]:
-            if not a["cycle_plain"]:
-                fail("cycle:path-symbol-edge", "an import cycle through a `needs mod.symbol` import ran to completion instead of CircularDependency")
-            elif key_sig:
-                fail(key_sig, "a reachable import cycle was not reported (module keys collide)")
-            else:
-                fail("cycle-not-reported", "a reachable import cycle ran to completion")
+            fail("cycle-not-reported", "a reachable import cycle ran to completion")
         elif code in (9, 10):
             fail("unexpected-error", f"outcome {CODES.get(code, code)}")
-        elif key_sig:
-            fail(key_sig, f"outcome {CODES.get(code, code)} but the tree only allows {sorted(CODES[c] for c in allowed)} (module keys collide)")
-        elif code == 0 and 3 in a["defects"] and any(sym for f in a["reach"] for _, sym in a["edges"][f]):
-            # `needs m.priv` after m is loaded succeeds: reported through the probes as a leak as well
-            fail("leak:path-symbol-private", "`needs mod.symbol` naming a private/undefined symbol of an already loaded module was accepted")
         else:
             fail("unexpected-outcome", f"outcome {CODES.get(code, code)} but the tree only allows {sorted(CODES[c] for c in allowed)}")
     # O2 exactly once, post-order
     if code == 0:
         for f in a["reach"]:
             if f not in trace:
-                if key_sig:
-                    fail("key:two-files-one-key" if a["two_files_one_key"] else key_sig, f"{f} is imported but its top level never ran")
-                else:
-                    fail("missing-init", f"{f} is reachable but its top level never ran")
-        if not a["cycle"]:
-            pos = {f: i for i, f in enumerate(trace)}
-            for f in a["reach"]:
-                for g, _ in a["edges"][f]:
-                    if f in pos and g in pos and pos[g] > pos[f]:
-                        fail(key_sig or "order", f"{f} ran before its dependency {g}")
+                fail("missing-init", f"{f} is reachable but its top level never ran")
+        pos = {f: i for i, f in enumerate(trace)}
+        for f in a["reach"]:
+            for g in a["edges"][f]:
+                if f in pos and g in pos and pos[g] > pos[f]:
+                    fail("order", f"{f} ran before its dependency {g}")
         if trace and trace[-1] != t["entry"]:
-            fail(key_sig or "order", "the entry did not run last")
+            fail("order", "the entry did not run last")
     # O5 names
     qual_binds = collections.defaultdict(set)      # (qualifier, name) -> {(importer, definition)}
     for f0 in a["reach"]:
-        g0 = grants(t, f0)[0]
-        for sp0, defs0 in g0.items():
+        for sp0, defs0 in grants(t, f0).items():
             if sp0[0] == "qual":
                 for d0 in defs0:
                     qual_binds[(sp0[1], sp0[2])].add((f0, d0))
-    ps_cycle = a["cycle"] and not a["cycle_plain"]
     if code == 0:
         for (f, sp), vals in zip(t["probes"], probes):
             if trace.count(f) != 1:
                 continue
-            g, quals, second_syms, ps_private = grants(t, f)
+            g = grants(t, f)
             want = g.get(sp, set())
             if len(want) > 1:
                 continue        # two imports grant the same spelling: the documentation does not say which wins
@@ -316,40 +277,26 @@ def oracle(t, code, trace, probes):
             if got == exp:
                 continue
             spell = n if sp[0] == "bare" else f"{sp[1]}.{n}"
-            bare_equiv = sp[0] == "qual" and sp[1] not in quals
             if got and not exp:
                 what = f"{f} can use `{spell}` = {got[0][0]}:{got[0][1]} although no import grants it"
-                bare_want = g.get(("bare", n), set())
-                if n in ps_private and (sp[0] == "bare" or bare_equiv):
-                    fail("leak:path-symbol-private", what + f" (`needs ...{n}` names a private definition of a loaded module)")
-                elif bare_equiv and (len(bare_want) >= 1 and (got[0] in bare_want)):
-                    fail("spelling:non-alias-qualifier-ignored", what + f" ({sp[1]} is no module alias; the qualifier is dropped)")
-                elif sp[0] == "qual" and sp[1] in quals and any(f0 != f and d0 == got[0] for f0, d0 in qual_binds.get((sp[1], n), ())):
+                if sp[0] == "qual" and any(f0 != f and d0 == got[0] for f0, d0 in qual_binds.get((sp[1], n), ())):
                     fail("ns:qualifier-shared-between-importers", what + f" (another importer bound {sp[1]}::{n}; qualified globals are process-wide)")
                 elif n in a["shared_names"]:
                     fail("ns:same-global-name", what + f" ({n} is a top-level name of two modules)")
-                elif key_sig:
-                    fail(key_sig, what)
                 else:
                     fail("leak", what)
             elif exp and not got:
                 what = f"{f} cannot use `{spell}` although its import grants {exp[0][0]}:{exp[0][1]}"
-                if f != t["entry"] and sp[0] == "bare" and n in second_syms:
-                    fail("grant:nested-second-symbol", what + " (not the first symbol of a `needs a, b from m` inside a module)")
-                elif n in a["shared_names"]:
+                if n in a["shared_names"]:
                     fail("ns:same-global-name", what)
-                elif key_sig:
-                    fail(key_sig, what)
-                elif ps_cycle:
-                    fail("cycle:path-symbol-edge", what + " (its module is still being loaded: unreported cycle)")
                 else:
                     fail("grant-missing", what)
             else:
                 what = f"{f} reads `{spell}` = {got[0][0]}:{got[0][1]}, its import grants {exp[0][0]}:{exp[0][1]}"
                 if n in a["shared_names"]:
                     fail("ns:same-global-name", what)
-                elif key_sig:
-                    fail(key_sig, what)
+                elif sp[0] == "qual" and any(f0 != f and d0 == got[0] for f0, d0 in qual_binds.get((sp[1], n), ())):
+                    fail("ns:qualifier-shared-between-importers", what)
                 else:
                     fail("wrong-value", what)
     return out, a
@@ -388,23 +335,21 @@ def check_rows(ctx, rows, prof, origin, stats):
             ctx.violation("tie:model-differs", "the loader's behaviour on this tree differs from Model/Modules.v "
                           "(either the loader changed or the model is wrong)",
                           {"tree": r[2], "implementation": r[3], "profile": prof})
-    # the theorem guards, evaluated by Coq on the very same trees: a failure may be attributed to a
-    # key / cycle / shared-name root cause only where the corresponding guard is false
-    gterms = [f"let q := ({r[0]}) in (keys_ok (q_fs q), unique_defs (q_fs q))" for r in rows]
+    # unique_defs evaluated by Coq on the very same trees: a failure may be attributed to the shared
+    # global name root cause only where some top-level name really is defined twice
+    gterms = [f"unique_defs (q_fs ({r[0]}))" for r in rows]
     gres, gerr = [], None
     for k in range(0, len(gterms), 400):
         part, e = vlib.coq_eval_terms("c19g", IMPORTS.replace("Model.ModulesObs", "Model.ModulesObs Model.ModulesSpec"), gterms[k:k + 400])
         gres += part
         gerr = gerr or e
     if gerr or any(g is None for g in gres):
-        ctx.broken.append("guards C19: keys_ok/unique_defs could not be evaluated in Coq")
+        ctx.broken.append("guards C19: unique_defs could not be evaluated in Coq")
         ctx.log((gerr or "")[-2000:])
         gres = [None] * len(rows)
     per_sig = collections.Counter()
     for r, gr in zip(rows, gres):
-        keys_ok = gr is not None and "(true," in gr.replace(" ", "")
-        uniq_ok = gr is not None and ",true)" in gr.replace(" ", "")
-        stats["guard_keys_ok"] += 1 if keys_ok else 0
+        uniq_ok = gr is not None and "true" in gr
         t = parse_tree(r[2])
         code, trace, probes, detail = parse_raw(r[3])
         probes = probes[:len(t["probes"])] if t["probes"] else []
@@ -414,8 +359,6 @@ def check_rows(ctx, rows, prof, origin, stats):
         if len(t["files"]) >= 2:
             stats["distinct"].add(r[2].split(";", 1)[1])
         fs, a = oracle(t, code, trace, probes)
-        if a["two_files_one_key"] or a["one_file_two_keys"]:
-            stats["key_class"] += 1
         if a["shared_names"]:
             stats["ns_class"] += 1
         if len({f.rsplit("/", 1)[0] if "/" in f else "" for f in a["reach"]}) > 1:
@@ -423,9 +366,8 @@ def check_rows(ctx, rows, prof, origin, stats):
         if a["cycle"]:
             stats["cyclic"] += 1
         for sig, what in fs:
-            if gr is not None and ((keys_ok and sig.startswith(("key:", "cycle:"))) or (uniq_ok and sig.startswith("ns:same-global-name"))):
-                # C19_init_once / C19_cycle_reported cover this tree: the attribution is wrong
-                sig = "guarded-tree:" + sig
+            if gr is not None and uniq_ok and sig.startswith("ns:same-global-name"):
+                sig = "guarded-tree:" + sig     # no name is defined twice: the attribution is wrong
             per_sig[sig] += 1
             stats["oracle_failures"][sig] += 1
             if per_sig[sig] <= 2:
@@ -437,8 +379,8 @@ def run(ctx):
     ctx.level = "proof"
     ctx.cov["trusted_base"] = TRUSTED
     ctx.assumptions = ["Model/Modules.v is the loader: checked by the contract tie below on every run",
-                       "theorem guards (keys_ok, plain imports) are decidable and evaluated in Coq; the oracle's class "
-                       "predicates are their Python counterparts over the same tree"]
+                       "unique_defs is evaluated in Coq on every tree; the shared-global-name class may only be claimed "
+                       "where it is false"]
     proved = ctx.prove("C19")
     if ctx.tier == "thorough" and proved:
         ctx.coqchk("C19")
@@ -450,7 +392,7 @@ def run(ctx):
     n_random = 700 if ctx.tier == "quick" else 6000
     profiles = ["dev"] if ctx.tier == "quick" else ["dev", "release"]
     stats = {"runs": 0, "codes": collections.Counter(), "labels": collections.Counter(), "distinct": set(),
-             "oracle_failures": collections.Counter(), "guard_keys_ok": 0, "key_class": 0, "ns_class": 0, "nested": 0, "cyclic": 0}
+             "oracle_failures": collections.Counter(), "ns_class": 0, "nested": 0, "cyclic": 0}
     corpus = sorted(glob.glob(os.path.join(vlib.VERIF, "corpus", "C19", "*.txt")))
     if getattr(ctx, "replay_file", None):
         import json
@@ -484,20 +426,18 @@ def run(ctx):
     ctx.cov["input_distribution"] = {
         "trees": sum(stats["codes"].values()), "outcomes": dict(stats["codes"]), "families": dict(stats["labels"]),
         "trees_with_nested_directories": stats["nested"], "trees_with_reachable_cycle": stats["cyclic"],
-        "trees_in_key_collision_class": stats["key_class"], "trees_satisfying_keys_ok_guard": stats["guard_keys_ok"], "trees_in_shared_global_name_class": stats["ns_class"],
-        "random_flavours": "f0 flat forward-only 40%, f1 flat with back edges 15%, f2 nested directories with repeated file names "
-                           "and mod.aelys 20%, f3 shared definition names 10%, f4 malformed (missing modules, private/undefined "
-                           "symbols, `needs mod.symbol`) 15%; the nested / shared-name / path-symbol flavours fall into the known "
-                           "classes by construction and are classified by the oracle's predicates, never rejected",
+        "trees_with_a_global_name_defined_twice": stats["ns_class"],
+        "random_flavours": "f0 flat forward-only 40%, f1 flat with back edges 15%, f2 nested directories with repeated file names, "
+                           "mod.aelys and imports resolved next to the entry file 20%, f3 shared definition names 10%, f4 malformed "
+                           "(missing modules, private/undefined symbols, `needs mod.symbol`) 15%; only f3 (a global name defined by two "
+                           "modules) and trees where two importers use one qualifier for different modules fall into the open classes",
     }
     ctx.cov["oracle_failures_by_root_cause"] = dict(stats["oracle_failures"])
-    ctx.cov["refuted_lemmas"] = ["C19_key_collision_refuted", "C19_one_file_two_keys_refuted",
-                                 "C19_flat_namespace_collision_refuted", "C19_cycle_reported_refuted",
-                                 "C19_private_leak_refuted", "C19_nested_second_symbol_refuted",
-                                 "C19_qualifier_dropped_refuted", "C19_shared_qualifier_refuted"]
+    ctx.cov["refuted_lemmas"] = ["C19_flat_namespace_collision_refuted", "C19_shared_qualifier_refuted"]
     ctx.cov["rule"] = ("structured families (chains 1-6, diamonds 2-4, cycles of length 1-6 behind tails 0-2, nested directories with "
                        "a repeated file name, one file under two dotted paths, mod.aelys packages, same global name in two modules, "
-                       "`needs mod.symbol` incl. private names and cycles, two selected symbols, missing module, private symbol, entry "
+                       "`needs mod.symbol` incl. private names and cycles, two selected symbols, a nested module importing a file that lives next to "
+                       "the entry (with and without a same-named file next to the module), missing module, private symbol, entry "
                        "conflicts, cycle through the entry) + seeded random trees of 2-8 files; every tree is run once plain and once per "
                        "probe (importer, spelling) with up to 14 (structured: 24) probes drawn from bare / last-segment / alias / "
                        "previous-segment / non-alias qualifiers x the definitions of the files the import could mean; evaluations = runs of "
